@@ -342,6 +342,13 @@ class Persona(object):
         if b == 'charitable_contributions_std_ded':
             return round(r.choice([0, r.uniform(1, 900)]), 2)
         for who in ('you', 'spouse'):
+            mode_ = getattr(self, 'ira_modes', {}).get(who, self.ira_mode)
+            if b == f'ira_exception1_{who}':
+                return mode_ == 'rollover'
+            if b == f'ira_exception2_{who}':
+                return mode_ == '8606'
+            if b == f'ira_exception3_{who}':
+                return mode_ == 'qcd'
             if b == f'ira_exception1_{who}':
                 return self.ira_mode == 'rollover'
             if b == f'ira_exception1_{who}_total':
@@ -493,6 +500,8 @@ class Persona(object):
         if b == 'advance_ctc_payments':
             return self.advance_ctc
         if b == 'number_children_letter':
+            if getattr(self, 'letter_children', None) is not None:
+                return self.letter_children
             return self.n_ctc if self.advance_ctc else 0
         return None
 
@@ -775,6 +784,20 @@ def directed_personas(year, seed, n):
                      'box_14_2': round(r.uniform(10, 80), 2), 'box_14_2_state': 'NC'}]
         p.ints[0].update({'box_17_2': round(r.uniform(3, 30), 2), 'box_15_2': 'NC'})
         out.append(('F8j', p))
+        # married filing separately, N.C.: a statement marked as the spouse's still carries N.C. tax withheld (line 20b)
+        p = plain_persona(year, 'MFS', [round(r.uniform(40000, 70000), 2), round(r.uniform(8000, 20000), 2)], key=f'dirncmfs:{seed}:{k}', nc=True,
+                          n_int=1, ints=[{'box_1': round(r.uniform(100, 900), 2), 'box_3': 0.0, 'box_4': 0.0, 'box_6': 0.0, 'box_8': 0.0, 'box_2': 0.0,
+                                          'box_17_1': round(r.uniform(5, 40), 2), 'box_15_1': 'NC', 'belongs_to': 'spouse'}])
+        p.w2[1]['belongs_to'] = 'spouse'
+        out.append(('F8m', p))
+        # N.C. itemized deductions equal to the N.C. standard deduction to the dollar (the standard deduction is taken; no Schedule A)
+        st_ = r.choice(['S', 'MFJ', 'HOH'])
+        ncstd = _stat.amount('nc_standard_deduction', year, st_)
+        p = plain_persona(year, st_, round(r.uniform(50000, 90000), 2), key=f'dirnceq:{seed}:{k}', deps_odc=1 if st_ == 'HOH' else 0, nc=True, n_1098=1,
+                          f1098=[{'box_1': float(ncstd - 2750), 'box_6': 0.0, 'box_4': 0.0, 'box_5': 0.0}])
+        p.sa['state_local_real_estate_taxes'] = 2750.0
+        p.ncv['try_itemizing'] = True
+        out.append(('F8q', p))
         if year == 2021:
             # 2021 only: advance child tax credit payments above the credit for the qualifying children but below the total with the
             # credit for other dependents (Schedule 8812 lines 14b-14i), and well above it (Part III, additional tax)
@@ -783,6 +806,14 @@ def directed_personas(year, seed, n):
                 p = plain_persona(year, st_, round(r.uniform(40000, 90000), 2), key=f'diradv{u6}{int(adv)}:{seed}:{k}', deps_ctc=1, deps_odc=1)
                 p.n_under6 = u6
                 p.advance_ctc = adv
+                out.append(('F1a', p))
+            # ... with Letter 6419 counting more children than the return claims and an income low enough for the repayment
+            # protection of Part III (lines 33-40; the additional tax is "zero or less -> 0")
+            for st_, wages_ in (('MFJ', round(r.uniform(54500, 59500), 2)), ('HOH', round(r.uniform(48500, 49900), 2))):
+                p = plain_persona(year, st_, wages_, key=f'dirletter{st_}:{seed}:{k}', deps_ctc=1, deps_odc=1)
+                p.n_under6 = r.choice([0, 1])
+                p.advance_ctc = round(r.uniform(4300, 5600), 2)
+                p.letter_children = 3
                 out.append(('F1a', p))
         # capital gain distributions without any qualified dividends (the worksheet is still the way to figure the tax)
         st_ = r.choice(['S', 'MFJ', 'HOH'])
@@ -821,6 +852,18 @@ def directed_personas(year, seed, n):
             d['box_17'] = 0.0
             d['box_19'] = 0.0
         out.append(('F3z', p))
+        # joint return: a pension of one spouse numbered BEFORE an IRA distribution of the other spouse that was rolled over in full,
+        # while the first spouse's own (small) IRA distribution is fully taxable - the spouses give different answers
+        p = plain_persona(year, 'MFJ', [round(r.uniform(40000, 80000), 2), round(r.uniform(20000, 50000), 2)], key=f'dirirasp:{seed}:{k}')
+        p.n_1099r = 3
+        p.f1099r = [{'box_1': round(r.uniform(5000, 15000), 2), 'box_2a': 0.0, 'box_4': 0.0, 'ira': False, 'belongs_to': 'taxpayer', 'box_14_1': 0.0},
+                    {'box_1': round(r.uniform(20000, 40000), 2), 'box_2a': 0.0, 'box_4': 0.0, 'ira': True, 'belongs_to': 'spouse', 'box_14_1': 0.0},
+                    {'box_1': round(r.uniform(500, 3000), 2), 'box_2a': 0.0, 'box_4': 0.0, 'ira': True, 'belongs_to': 'taxpayer', 'box_14_1': 0.0}]
+        for d in p.f1099r:
+            d['box_2a'] = d['box_1']
+        p.ira_mode = 'plain'
+        p.ira_modes = {'you': 'plain', 'spouse': 'rollover'}
+        out.append(('F9s', p))
         # plain (fully taxable) IRA distributions of both spouses
         p = plain_persona(year, 'MFJ', [round(r.uniform(40000, 90000), 2), round(r.uniform(30000, 60000), 2)], key=f'dirira:{seed}:{k}')
         p.n_1099r = 2
